@@ -32,9 +32,10 @@ def gen_case(rng, tier, *, semi=False, metrics=None, force_tie_free=False, allow
     if max_n:
         n = min(n, max_n)
     d = int(rng.integers(1, 7))
+    gc_given = gclasses is not None
     gclasses = gclasses or gen.GCLASSES
     gc = gclasses[int(rng.integers(0, len(gclasses)))]
-    if force_tie_free:
+    if force_tie_free and not gc_given:
         gc = "G1" if rng.random() < 0.7 else "G7"
     metric = "log_squared_euclidean"
     if metrics:
